@@ -1,6 +1,5 @@
 \* C12 quick: the code as pinned; 186 offsets x 47 values x 4 bases, all B for each
 CONSTANTS
-  AllCells = FALSE
   FixedWindowRaw = FALSE
   FixedWatchdogRestart = FALSE
   ValMode = 1
